@@ -67,6 +67,12 @@ POOL = [
     mk(7, 'Store', 'Shop', 'Tools', 0.5, ['INCOME', 'transfer'], 12),
     mk(8, 'Venmo', 'Misc', 'P2P', 5.0, ['transfer', 'income'], 2),
     mk(9, 'Bank', 'Move', 'X', 80.0, ['investment'], 3),
+    # one merchant whose money is split EXACTLY evenly between two categories (45 + 15 against 60; a purchase and its refund filed differently):
+    # whichever category the merchant is filed under, it is the same one for every order of the transactions (indices 10..13, used by the tie cases only)
+    mk(10, 'Tie', 'Shop', 'Tools', 45.0, [], 4),
+    mk(11, 'Tie', 'Shop', 'Tools', 15.0, [], 5),
+    mk(12, 'Tie', 'Food', 'Out', 60.0, [], 4),
+    mk(13, 'Tie', 'Auto', 'Fuel', -60.0, ['refund'], 6),
 ]
 
 
@@ -189,6 +195,9 @@ def main():
             check_list(list(idx))
             if n >= 2 and list(idx) == sorted(idx):
                 check_perm_split(list(idx))
+    for idx in ([10, 11, 12], [12, 13], [10, 11, 12, 13], [3, 10, 11, 12]):
+        check_list(idx)
+        check_perm_split(idx)
     O.sample({'analyze_transactions': {'pool_indices': [0, 1, 4]}})
     O.finish()
 
